@@ -3686,6 +3686,10 @@ class CacheDataset(Dataset):
             item = self.keys().index(item)
 
         if isinstance(item, numbers.Integral):
+            # diskcache stores int keys raw, but pickles e.g. np.int64:
+            # ds[1] and ds[np.int64(1)] (e.g. from a slice) would be
+            # different cache entries.
+            item = int(item)
             if item < 0 and -len(self) <= item:
                 # ds[-1] and ds[len(ds) - 1] have to share one cache entry
                 item = item + len(self)
